@@ -176,9 +176,44 @@ func SolveAll(all []*Obligation, solv *Solvers) {
 	wg2.Add(2)
 	go func() {
 		defer wg2.Done()
-		for k, r := range solv.SolveBatch(qs) {
-			rs[qi[k]] = r
+		// two rounds: the first few queries of every obligation; an obligation that already has a
+		// counterexample is not pursued on its remaining paths (they would mostly time out)
+		perName := map[string]int{}
+		var first, rest []int
+		for k, i := range qi {
+			n := todo[i].Name
+			perName[n]++
+			if perName[n] <= 3 {
+				first = append(first, k)
+			} else {
+				rest = append(rest, k)
+			}
 		}
+		sub := func(ks []int) {
+			var q2 []string
+			for _, k := range ks {
+				q2 = append(q2, qs[k])
+			}
+			for j, r := range solv.SolveBatch(q2) {
+				rs[qi[ks[j]]] = r
+			}
+		}
+		sub(first)
+		failedName := map[string]bool{}
+		for _, k := range first {
+			if rs[qi[k]].Result != "unsat" {
+				failedName[todo[qi[k]].Name] = true
+			}
+		}
+		var rest2 []int
+		for _, k := range rest {
+			if failedName[todo[qi[k]].Name] {
+				rs[qi[k]] = solverResult{Result: "skipped", Solver: "-"}
+				continue
+			}
+			rest2 = append(rest2, k)
+		}
+		sub(rest2)
 	}()
 	go func() {
 		defer wg2.Done()
@@ -245,7 +280,7 @@ func aggregate(obls []*Obligation) []*AggObl {
 			continue
 		}
 		switch o.Result {
-		case "unsat":
+		case "unsat", "skipped":
 		case "sat":
 			if a.Status != "failed" {
 				a.Failing = o
